@@ -1,5 +1,7 @@
 import XsVerif.Driver.Util
 import XsVerif.Model.Threads
+import XsVerif.Model.ThreadsWiden
+import XsVerif.Model.ThreadsCache
 open Lean XsVerif.Driver XsVerif.Threads
 
 namespace XsVerif.Driver.C18
@@ -68,6 +70,264 @@ def replayBuild (bodyLen postLen : Nat) (evs : List (Nat × String × Bool)) : E
     i := i + 1
   return c
 
+/-! ### line-granularity replay of `XsdGlobals.build` -/
+
+/-- Events: the shared-state events of `replayBuild` plus one event per executed line of `build()`:
+    `L:rd0` (`if self._built:` before the lock), `L:ret0`, `L:with`, `L:rd1`, `L:ret1`, `L:body` (any
+    statement of the locked region before `self._built = True`), `L:set` (`self._built = True`), `L:post`
+    (any statement after it), `L:exit` (the `with` line revisited when the block is left).  Every line event
+    must be issued at the model pc of that statement; `L:body` / `L:post` are model steps, so the number of
+    statements executed before / after the publication of `_built` must be exactly `bodyLen + 1` / `postLen`. -/
+def replayBuildL (bodyLen postLen : Nat) (evs : List (Nat × String × Bool)) : Except String Cfg := do
+  let mut c := init bodyLen postLen
+  let mut i := 0
+  for (t, ev, v) in evs do
+    let pc := c.pc t
+    let fail (why : String) : Except String Cfg :=
+      throw s!"event {i} (thread {t} {ev} {v}) at pc {pcStr pc}: {why}"
+    match ev, pc with
+    | "L:rd0", .start => pure ()
+    | "read", .start =>
+      if c.built != v then c ← fail s!"model _built = {c.built}"
+      c := (step t c).getD c
+    | "L:ret0", .done _ => pure ()
+    | "L:with", .wantLock => pure ()
+    | "acquire", .wantLock =>
+      match step t c with
+      | some c' => c := c'
+      | none => c ← fail "lock is held in the model"
+    | "L:rd1", .locked => pure ()
+    | "read", .locked =>
+      if c.built != v then c ← fail s!"model _built = {c.built}"
+      if !v then c := (step t c).getD c
+    | "L:ret1", .locked => if !c.built then c ← fail "return under the lock while _built is false"
+    | "L:exit", .locked => if !c.built then c ← fail "leaves the block while _built is false"
+    | "release", .locked =>
+      if !c.built then c ← fail "release without build while _built is false"
+      c := (step t c).getD c
+    | "L:body", .body _ => c := (step t c).getD c
+    | "read", .body _ => if c.built != v then c ← fail s!"model _built = {c.built}"
+    | "write", .body _ => if v then c ← fail "`_built = True` before the end of the body"
+    | "read", .setBuilt => if c.built != v then c ← fail s!"model _built = {c.built}"
+    | "write", .setBuilt =>
+      if v then c := (step t c).getD c
+    | "L:set", .setBuilt => pure ()
+    | "L:post", .post (_ + 1) => c := (step t c).getD c
+    | "L:exit", .post 0 => pure ()
+    | "read", .post _ => if c.built != v then c ← fail s!"model _built = {c.built}"
+    | "release", .post 0 => c := (step t c).getD c
+    | "read", .done _ => if c.built != v then c ← fail s!"model _built = {c.built} after return"
+    | _, _ => c ← fail "event not enabled in the model"
+    i := i + 1
+  return c
+
+/-! ### statement-level widening -/
+open XsVerif.Threads.XW in
+def factStr : Fact → String
+  | .xsi p => s!"xsi:{p}" | .elem i e => s!"elem:{i}:{e}" | .selBy e i => s!"selBy:{e}:{i}"
+
+open XsVerif.Threads.XW in
+def xpcStr : XW.PC → String
+  | .idle => "idle" | .chk p _ => s!"chk:{p}" | .loopRd p r => s!"loopRd:{p}:{r}" | .loopSet p e r => s!"loopSet:{p}:{e}:{r}"
+  | .loopAdd p e r => s!"loopAdd:{p}:{e}:{r}" | .pub p => s!"pub:{p}" | .cRd e => s!"cRd:{e}" | .cIterNew e => s!"cIterNew:{e}"
+  | .cIter e n todo done => s!"cIter:{e}:{n}:{todo}:{done}" | .err => "err"
+
+def natPairs (j : Json) (k : String) : Except String (List (Nat × Nat)) := do
+  (← getArr j k).toList.mapM fun x => do
+    let a ← x.getArr?
+    if h : a.size = 2 then return (← a[0].getNat?, ← a[1].getNat?) else throw "pair"
+
+def natTable (j : Json) (k : String) : Except String (List (Nat × List Nat)) := do
+  (← getArr j k).toList.mapM fun x => do
+    let a ← x.getArr?
+    if h : a.size = 2 then return (← a[0].getNat?, ← (← a[1].getArr?).toList.mapM (·.getNat?)) else throw "row"
+
+open XsVerif.Threads.XW in
+def parseSch (j : Json) : Except String Sch := do
+  let sel ← natTable j "sel"
+  let ido ← natPairs j "idOf"
+  return { sel := fun p => (sel.lookup p).getD [], idOf := fun p => (ido.lookup p).getD 0 }
+
+open XsVerif.Threads.XW in
+def parseFact (x : Json) : Except String Fact := do
+  let a ← x.getArr?
+  if h : a.size = 3 then
+    let k ← a[0].getStr?
+    let u ← a[1].getNat?
+    let w ← a[2].getNat?
+    match k with
+    | "xsi" => return .xsi u | "elem" => return .elem u w | "selBy" => return .selBy u w
+    | _ => throw "fact"
+  else throw "fact"
+
+open XsVerif.Threads.XW in
+def parseVariant (j : Json) : Except String Variant := do
+  return { addInside := ← getBool j "addInside", live := ← getBool j "live" }
+
+open XsVerif.Threads.XW in
+def parseTask (x : Json) : Except String Task := do
+  let a ← x.getArr?
+  if h : a.size = 2 then
+    match ← a[0].getStr? with
+    | "child" => return .child (← a[1].getNat?)
+    | _ => throw "task"
+  else if h : a.size = 3 then
+    match ← a[0].getStr? with
+    | "widen" => return .widen (← a[1].getNat?) (← (← a[2].getArr?).toList.mapM (·.getNat?))
+    | _ => throw "task"
+  else throw "task"
+
+open XsVerif.Threads.XW in
+def xwOut (n : Nat) (c : XW.Cfg) : Json :=
+  Json.mkObj [("ok", true),
+    ("facts", Json.arr ((sortStrs (c.sh.map factStr)).map Json.str).toArray),
+    ("pcs", Json.arr ((List.range n).map fun t => Json.str (xpcStr (c.th t).pc)).toArray),
+    ("obs", Json.arr ((List.range n).map fun t =>
+      Json.arr ((c.th t).obs.map fun o =>
+        Json.arr #[Json.num o.e, Json.arr ((o.ids.toArray.qsort (· < ·)).map fun (i : Nat) => Json.num i),
+                   Json.arr ((o.seen.toArray.qsort (· < ·)).map fun (i : Nat) => Json.num i)]).toArray).toArray)]
+
+open XsVerif.Threads.XW in
+/-- silent steps: loop exit (`loopRd p []` → `pub p`) accesses no shared state -/
+def xwNorm (sch : Sch) (v : Variant) (t : Nat) (c : XW.Cfg) : XW.Cfg :=
+  match (c.th t).pc with
+  | .loopRd _ [] => XW.step sch v t c
+  | _ => c
+
+open XsVerif.Threads.XW in
+def pushTask (t : Nat) (task : Task) (c : XW.Cfg) : XW.Cfg :=
+  { c with th := upd c.th t { c.th t with tasks := task :: (c.th t).tasks } }
+
+open XsVerif.Threads.XW in
+/-- Replays the observed shared-state events (reads with their values, writes) of the real widening code on
+    the model: every event must be the enabled statement of that thread and every read must return the
+    model's value. -/
+def replayXW (sch : Sch) (v : Variant) (s₀ : Sh) (evs : List (Nat × String × Nat × Nat × Nat)) :
+    Except String XW.Cfg := do
+  let mut c := XW.init s₀ (fun _ => [])
+  let mut n := 0
+  for (t, ev, a, b, val) in evs do
+    let pc := (c.th t).pc
+    let fail (why : String) : Except String XW.Cfg :=
+      throw s!"event {n} (thread {t} {ev} {a} {b} {val}) at pc {xpcStr pc}: {why}"
+    let st := XW.step sch v t
+    match ev, pc with
+    | "xin", .idle =>
+      c := st (pushTask t (.widen a (sch.sel a)) c)
+      if (c.sh.contains (.xsi a)) != (val != 0) then c ← fail s!"model: pair published = {c.sh.contains (.xsi a)}"
+      c := xwNorm sch v t (st c)
+    | "ein", .loopRd p rest =>
+      if a != sch.idOf p || !rest.contains b then c ← fail "update_elements visits an element that is not (any more) in sel(p)"
+      -- the order in which the selector yields the elements is unspecified (XPath union = a set): bring the
+      -- observed element to the front
+      c := { c with th := upd c.th t { c.th t with pc := .loopRd p (b :: rest.erase b) } }
+      if (c.sh.contains (.elem a b)) != (val != 0) then c ← fail s!"model: e in elements = {c.sh.contains (.elem a b)}"
+      c := xwNorm sch v t (st c)
+    | "eset", .loopSet p e _ =>
+      if a != sch.idOf p || b != e then c ← fail "elements[e] written for another element"
+      c := st c
+    | "sadd", .loopAdd p e _ =>
+      if a != e || b != sch.idOf p then c ← fail "selected_by.add on another element"
+      c := xwNorm sch v t (st c)
+    | "xadd", .pub p =>
+      if a != p then c ← fail "another pair published"
+      c := st c
+    | "sbool", .idle =>
+      c := st (pushTask t (.child a) c)
+      if (!(selOf c.sh a).isEmpty) != (val != 0) then c ← fail s!"model: selected_by non-empty = {!(selOf c.sh a).isEmpty}"
+      c := st c
+    | "siter", .cIterNew e =>
+      if a != e then c ← fail "iterator of another set"
+      if (selOf c.sh e).length != val then c ← fail s!"model: size {(selOf c.sh e).length}"
+      c := st c
+    | "snext", .cIter e k todo done =>
+      if a != e then c ← fail "iterator of another set"
+      if !todo.contains b then c ← fail "the iterator yields an identity that is not in the model's snapshot"
+      -- the iteration order of a set is unspecified: bring the observed item to the front
+      c := { c with th := upd c.th t { c.th t with pc := .cIter e k (b :: todo.erase b) done } }
+      c := st c
+      if (c.th t).pc == .err then c ← fail "model: RuntimeError here, the code went on"
+    | "sstop", .cIter e _ todo _ =>
+      if a != e then c ← fail "iterator of another set"
+      if !todo.isEmpty then c ← fail s!"the iterator stopped, the model still has {todo}"
+      c := st c
+      if (c.th t).pc == .err then c ← fail "model: RuntimeError here, the code went on"
+    | "serr", .cIter e _ _ _ =>
+      if a != e then c ← fail "iterator of another set"
+      c := { c with th := upd c.th t { c.th t with pc := match (c.th t).pc with
+        | .cIter e k _ d => .cIter e k [] d
+        | q => q } }
+      c := st c
+      if (c.th t).pc != .err then c ← fail "the code raised RuntimeError, the model does not"
+    | "sbool", .cIter _ _ _ _ =>
+      -- `tuple(self.selected_by)` asks the set for a length hint before it exhausts the iterator (same statement)
+      if (!(selOf c.sh a).isEmpty) != (val != 0) then c ← fail s!"model: selected_by non-empty = {!(selOf c.sh a).isEmpty}"
+    | "ein", .idle =>
+      -- snapshot variant: the loop body (its read of identity.elements) runs after the snapshot was taken
+      if v.live then c ← fail "read of identity.elements outside the loop"
+      if (c.sh.contains (.elem a b)) != (val != 0) then c ← fail s!"model: e in elements = {c.sh.contains (.elem a b)}"
+    | "ein", .cIter _ _ _ _ =>
+      if (c.sh.contains (.elem a b)) != (val != 0) then c ← fail s!"model: e in elements = {c.sh.contains (.elem a b)}"
+    | _, _ => c ← fail "event not enabled in the model"
+    n := n + 1
+  return c
+
+def parseEv5 (j : Json) : Except String (Nat × String × Nat × Nat × Nat) := do
+  let a ← j.getArr?
+  if h : a.size = 5 then
+    return (← a[0].getNat?, ← a[1].getStr?, ← a[2].getNat?, ← a[3].getNat?, ← a[4].getNat?)
+  else throw "event"
+
+/-! ### caches -/
+open XsVerif.Threads.Cache in
+def cpcStr : Cache.PC Nat Nat → String
+  | .idle => "idle" | .look k => s!"look:{k}" | .compute k b => s!"compute:{k}:{b}" | .store k v => s!"store:{k}:{v}"
+
+open XsVerif.Threads.Cache in
+def pushOp (t : Nat) (op : Cache.Op Nat) (c : Cache.Cfg Nat Nat) : Cache.Cfg Nat Nat :=
+  { c with th := upd c.th t { c.th t with ops := op :: (c.th t).ops } }
+
+open XsVerif.Threads.Cache in
+/-- Replays the observed cache events of the real code: `look k v` (v = 0: miss, v = value + 1: hit with that
+    value), `compute k`, `store k v`, `direct k v`, `evict k`, `clear`.  A miss on a key the model still holds
+    is explained by an lru eviction only when `evictable`. -/
+def replayCache (f : Nat → Nat) (evictable : Bool) (evs : List (Nat × String × Nat × Nat × Nat)) :
+    Except String (Cache.Cfg Nat Nat) := do
+  let mut c : Cache.Cfg Nat Nat := Cache.init Cache.empty (fun _ => [])
+  let mut n := 0
+  for (t, ev, k, v, _) in evs do
+    let pc := (c.th t).pc
+    let fail (why : String) : Except String (Cache.Cfg Nat Nat) :=
+      throw s!"event {n} (thread {t} {ev} {k} {v}) at pc {cpcStr pc}: {why}"
+    let st := Cache.step f t
+    match ev, pc with
+    | "look", .idle =>
+      match c.memo k, v with
+      | none, 0 => pure ()
+      | some _, 0 =>
+        if evictable then c := st (pushOp t (.evict k) c) else c ← fail "the code misses, the model holds the key"
+      | none, _ => c ← fail "the code hits, the model does not hold the key"
+      | some w, _ => if w + 1 != v then c ← fail s!"the code hits with another value than the model's {w}"
+      c := st (st (pushOp t (.call k) c))
+    | "compute", .compute k' true => if k != k' then c ← fail "other key" else c := st c
+    | "store", .store k' w =>
+      if k != k' then c ← fail "other key"
+      if w != v then c ← fail s!"the code stores a value different from f k = {w}"
+      c := st c
+    | "direct", .idle =>
+      c := st (st (pushOp t (.direct k) c))
+      if (c.th t).rets.getLast? != some (k, v) then c ← fail s!"uncached call returns a value different from f k = {f k}"
+    | "evict", .idle => c := st (pushOp t (.evict k) c)
+    | "clear", .idle => c := st (pushOp t .clear c)
+    | "ret", .idle => if (c.th t).rets.getLast? != some (k, v) then c ← fail "returned value differs from the model's"
+    | _, _ => c ← fail "event not enabled in the model"
+    n := n + 1
+  return c
+
+def spcStr : Cache.SPC → String
+  | .clrErr => "clrErr" | .clrPat => "clrPat" | .rdPat => "rdPat" | .pushPat => "pushPat" | .popRd => "popRd"
+  | .popClr _ => "popClr" | .check _ => "check" | .rdErr => "rdErr" | .fin v ok => s!"fin:{v}:{ok}"
+
 def parseEv (j : Json) : Except String (Nat × String × Bool) := do
   let a ← j.getArr?
   if h : a.size = 3 then
@@ -99,6 +359,57 @@ def handle (j : Json) : Except String Json := do
     let c := wexec (← parseMode (← getStr j "mode")) (← getNatList j "sched") winit
     return Json.mkObj [("published", c.published), ("inElems", c.inElems), ("selBy", c.selBy),
       ("pcs", Json.arr ((List.range n).map fun t => Json.str (wpcStr (c.pc t))).toArray)]
+  | "replayL" =>
+    let n ← getNat j "threads"
+    let evs ← (← getArr j "events").toList.mapM parseEv
+    match replayBuildL (← getNat j "body") (← getNat j "post") evs with
+    | .error e => return Json.mkObj [("ok", false), ("why", e)]
+    | .ok c =>
+      return Json.mkObj [("ok", true), ("runs", c.runs), ("built", c.built), ("maps", phaseStr c.maps),
+        ("pcs", Json.arr ((List.range n).map fun t => Json.str (pcStr (c.pc t))).toArray)]
+  | "xwreplay" =>
+    let n ← getNat j "threads"
+    let sch ← parseSch j
+    let v ← parseVariant j
+    let s₀ ← (← getArr j "s0").toList.mapM parseFact
+    let evs ← (← getArr j "events").toList.mapM parseEv5
+    match replayXW sch v s₀ evs with
+    | .error e => return Json.mkObj [("ok", false), ("why", e)]
+    | .ok c => return xwOut n c
+  | "xwexec" =>
+    let n ← getNat j "threads"
+    let sch ← parseSch j
+    let v ← parseVariant j
+    let s₀ ← (← getArr j "s0").toList.mapM parseFact
+    let progs ← (← getArr j "progs").toList.mapM fun x => do (← x.getArr?).toList.mapM parseTask
+    let c := XW.exec sch v (← getNatList j "sched") (XW.init s₀ (fun t => progs.getD t []))
+    return xwOut n c
+  | "creplay" =>
+    let n ← getNat j "threads"
+    let ftab ← natPairs j "f"
+    let evs ← (← getArr j "events").toList.mapM parseEv5
+    match replayCache (fun k => (ftab.lookup k).getD 0) (← getBool j "evictable") evs with
+    | .error e => return Json.mkObj [("ok", false), ("why", e)]
+    | .ok c =>
+      return Json.mkObj [("ok", true),
+        ("pcs", Json.arr ((List.range n).map fun t => Json.str (cpcStr (c.th t).pc)).toArray),
+        ("rets", Json.arr ((List.range n).map fun t =>
+          Json.arr ((c.th t).rets.map fun (k, v) => Json.arr #[Json.num k, Json.num v]).toArray).toArray),
+        ("sound", (ftab.all fun (k, w) => match c.memo k with
+          | some x => x == w
+          | none => true))]
+  | "sexec" =>
+    let n ← getNat j "threads"
+    let users ← (← getArr j "users").toList.mapM fun x => do
+      let lax ← getBool x "lax"
+      let pat := (x.getObjValAs? Nat "pat").toOption
+      let val ← getNat x "val"
+      let rej ← getNatList x "rej"
+      pure ({ lax := lax, pat := pat, val := val, rej := fun p => rej.contains p } : Cache.SUser)
+    let dflt : Cache.SUser := { lax := false, pat := none, val := 0, rej := fun _ => false }
+    let c := Cache.sexec (fun t => users.getD t dflt) (← getNatList j "sched") (Cache.sinit ⟨none, 0⟩)
+    return Json.mkObj [("errors", c.sc.errors),
+      ("pcs", Json.arr ((List.range n).map fun t => Json.str (spcStr (c.pc t))).toArray)]
   | op => throw s!"unknown op {op}"
 
 end XsVerif.Driver.C18
